@@ -103,6 +103,18 @@ CHECKS = {
             'Alphabet pinned in pv/data/c08_invertible.txt (excluded characters listed with class '
             'in c08_excluded.txt); strings are NFC-stable, ligature-free, whitespace-normal.',
             'DESIGN.md 5 C08'),
+    'C09': ('exploration',
+            'call histories (exhaustive orderings + Hypothesis) executed in forked children and '
+            'compared step by step with the same parse in a brand-new interpreter; context '
+            'database snapshots',
+            'All orderings of every 3-subset of an 8-document suspicious pool (strict and '
+            'tolerant) and hundreds (quick) / thousands (thorough) of random histories over a '
+            '32-document pool x 3 context recipes sharing one database object per recipe and the '
+            'global argument-parser cache; every step equals the fresh-interpreter result and '
+            'leaves the database snapshot unchanged.',
+            'Finite document pool (state leaking only through other inputs is not seen); freeze() '
+            'flag excluded from the snapshot.',
+            'DESIGN.md 5 C09'),
     'C10': ('exploration',
             'bounded-exhaustive strings differentially against a recursive-descent reference '
             'parser + Hypothesis documents with an AST-derived per-offset mode map',
